@@ -23,6 +23,11 @@ MAGIC = b"WAZEVO"
 # would otherwise allocate tens of gigabytes (the box has no swap)
 LIMIT = (["prlimit", "--as=4000000000", "--"] if shutil.which("prlimit")
          else ["bash", "-c", 'ulimit -v 3906250; exec "$@"', "--"])
+# used once when the harness dies before completing a single case (on a heavily loaded box the Go runtime itself can
+# run out of address space under the 4 GB limit while it starts threads); a reader that allocates from a corrupted
+# count still exceeds it
+LIMIT2 = (["prlimit", "--as=12000000000", "--"] if shutil.which("prlimit")
+          else ["bash", "-c", 'ulimit -v 11718750; exec "$@"', "--"])
 
 
 # ------------------------------------------------------------------------------------------------
@@ -309,15 +314,21 @@ def run(tier, seed):
     cases = []
     per = 150  # records per harness process: bounds the mappings leaked by failed reads of the implementation
     for s in range(0, ncodec, per):
-        rc, out = sh(LIMIT + [binp, "-mode", "codec", "-seed", str(seed * 1000 + s), "-n", str(min(per, ncodec - s))], timeout=1200)
-        got = []
-        for ln in out.split("\n"):
-            if not ln.startswith("{"):
-                continue
-            try: j = json.loads(ln)
-            except ValueError: continue      # a line cut off by the death of the harness
-            if j["kind"] == "codec": got.append(j)
-            elif j["kind"] == "codec-extra" and j["idx"] == len(got) - 1: got[-1]["probes"] += j["probes"]
+        def codec_run(limit):
+            rc, out = sh(limit + [binp, "-mode", "codec", "-seed", str(seed * 1000 + s), "-n", str(min(per, ncodec - s))], timeout=1200)
+            got = []
+            for ln in out.split("\n"):
+                if not ln.startswith("{"):
+                    continue
+                try: j = json.loads(ln)
+                except ValueError: continue      # a line cut off by the death of the harness
+                if j["kind"] == "codec": got.append(j)
+                elif j["kind"] == "codec-extra" and j["idx"] == len(got) - 1: got[-1]["probes"] += j["probes"]
+            return rc, out, got
+        rc, out, got = codec_run(LIMIT)
+        if rc != 0 and not got:
+            ck.note("codec harness died before its first case under the 4 GB address-space limit; retried once under 12 GB")
+            rc, out, got = codec_run(LIMIT2)
         cases += got
         if rc != 0 or not got:
             # the cases completed before the harness died are still judged below
